@@ -1,0 +1,32 @@
+//go:build verif
+
+package goja
+
+import "github.com/dop251/goja/unistring"
+
+// The UTF-16 representation: a marker unit (BOM) followed by the text. specUShape is what every
+// consumer relies on when it skips the first unit.
+func specUShape(s unicodeString) bool {
+	return len(s) >= 1 && s[0] == unistring.BOM
+}
+
+// specIsUStr / specAsUStr / specIsAStr / specAsAStr: which representation a String value has.
+func specIsUStr(v String) bool {
+	_, ok := v.(unicodeString)
+	return ok
+}
+
+func specAsUStr(v String) unicodeString {
+	s, _ := v.(unicodeString)
+	return s
+}
+
+func specIsAStr(v String) bool {
+	_, ok := v.(asciiString)
+	return ok
+}
+
+func specAsAStr(v String) asciiString {
+	s, _ := v.(asciiString)
+	return s
+}
